@@ -5,6 +5,7 @@
 mod api;
 mod fx;
 mod grid;
+mod hist;
 mod organic;
 mod pairs;
 mod props;
